@@ -490,3 +490,36 @@ pub fn reframe_proposal_as_external(csp: &VSuite, genuine_member_proposal: &[u8]
     put_opaque(&mut out, &sig);
     Some(out)
 }
+
+/// A key package of `party_id` (not yet a member) whose init key is replaced by `f(init_key)`, signed again
+/// ("KeyPackageTBS") by its owner: a correctly signed key package with an unusable HPKE init key.
+pub fn key_package_with_init_key(w: &mut crate::world::World, party_id: usize, f: impl Fn(&[u8]) -> Vec<u8>) -> Option<Vec<u8>> {
+    use crate::refmodel::tls::{put_opaque, Reader};
+    let suite = w.cfg.suite;
+    let good = w.key_package(party_id).ok()?.to_bytes().ok()?;
+    // MLSMessage(KeyPackage): version, wire_format, KeyPackage { version, cipher_suite, init_key<V>, leaf_node, extensions<V>, signature<V> }
+    let mut r = Reader::new(&good);
+    r.u16()?;
+    r.u16()?;
+    let kp_start = r.pos;
+    r.u16()?;
+    r.u16()?;
+    let head_end = r.pos;
+    let init = r.opaque()?.to_vec();
+    let leaf_start = r.pos;
+    crate::refmodel::tree::parse_leaf(&mut r)?;
+    r.opaque()?;
+    let tbs_tail_end = r.pos;
+    let mut tbs = good[kp_start..head_end].to_vec();
+    put_opaque(&mut tbs, &f(&init));
+    tbs.extend_from_slice(&good[leaf_start..tbs_tail_end]);
+    let mut sc = vec![];
+    put_opaque(&mut sc, b"MLS 1.0 KeyPackageTBS");
+    put_opaque(&mut sc, &tbs);
+    let p = &w.parties[party_id];
+    let sig = mls_rs::CipherSuiteProvider::sign(&p.suite_provider(suite), &p.signer, &sc).ok()?;
+    let mut out = good[..kp_start].to_vec();
+    out.extend_from_slice(&tbs);
+    put_opaque(&mut out, &sig);
+    Some(out)
+}
